@@ -20,6 +20,11 @@ Flat(ss) == IF ss = <<>> THEN <<>> ELSE Head(ss) \o Flat(Tail(ss))
 EncSuites(cs) == Flat([i \in 1..Len(cs) |-> U16(cs[i][1]) \o U16(cs[i][2])])
 EncCfg(c) == U16(65037) \o Vec16(U8(c.id) \o U16(c.kem) \o Vec16(c.pk) \o Vec16(EncSuites(c.suites))
                                  \o U8(Min(Len(c.name) + 16, 255)) \o Vec8(c.name) \o U16(0))
+\* the same config with k dangling bytes after its last cipher suite (a truncated HpkeSymmetricCipherSuite), every enclosing
+\* length consistent: well-framed, but not a valid ECHConfig
+EncCfgDangling(c, k) == U16(65037) \o Vec16(U8(c.id) \o U16(c.kem) \o Vec16(c.pk) \o Vec16(EncSuites(c.suites) \o Rep(0, k))
+                                 \o U8(Min(Len(c.name) + 16, 255)) \o Vec8(c.name) \o U16(0))
+EncListDangling(cs, k) == Vec16(EncCfgDangling(cs[1], k) \o Flat([i \in 1..(Len(cs) - 1) |-> EncCfg(cs[i + 1])]))
 EncList(cs) == Vec16(Flat([i \in 1..Len(cs) |-> EncCfg(cs[i])]))
 
 \* --- parser: returns [ok |-> BOOLEAN, v |-> value, rest |-> remaining bytes]
@@ -68,5 +73,7 @@ Spec == Init /\ [][Next]_cs
 Derived(c) == [id |-> c.id, kem |-> c.kem, pk |-> c.pk, suites |-> c.suites, maxlen |-> Min(Len(c.name) + 16, 255), name |-> c.name]
 RoundTrip == LET b == EncList(cs) p == ParseList(b) IN p.ok /\ p.v = [i \in 1..Len(cs) |-> Derived(cs[i])]
 TruncRejected == LET b == EncList(cs) IN \A n \in 0..(Len(b) - 1) : ~ParseList(SubSeq(b, 1, n)).ok
-Emit == PrintT(<<"CASE", ToJson([cfgs |-> cs, bytes |-> EncList(cs)])>>)
+DanglingRejected == cs # <<>> => \A k \in 1..3 : ~ParseList(EncListDangling(cs, k)).ok
+Emit == PrintT(<<"CASE", ToJson([cfgs |-> cs, bytes |-> EncList(cs),
+                                 dangling |-> IF cs = <<>> THEN <<>> ELSE [k \in 1..3 |-> EncListDangling(cs, k)]])>>)
 ==========================================================================
